@@ -275,8 +275,10 @@ func (s *Sim) Gen(r *PRNG) Step {
 		st.A, st.B, st.C = r.Intn(nsets), r.Intn(100), r.Intn(2)
 	case "histlimit":
 		st.A, st.B = r.Intn(nsets), r.Intn(4)
-	case "resubmit", "mkset":
+	case "resubmit", "mkset", "upgrade":
 		st.A = r.Intn(nsets)
+	case "bctl":
+		st.A = r.Intn(2)
 	case "delset":
 		st.A, st.B = r.Intn(nsets), r.Intn(3)
 	case "podrm", "podlabel", "podorphan":
